@@ -141,6 +141,24 @@ def check_local(case, ctx):
             ctx.le("geodetic2enu of a neighbour of the origin equals the closed-form local coordinates (m)", float(np.abs(out.value[0] - want).max()), 1e-7 + 1e-12 * float(np.linalg.norm(want)),
                    {"origin": [lat0, lon0, h0], "point": [la1, lo1, h1], "got": out.value[0], "want": want}, route=r)
             ctx.le("geodetic2enu = ecef2enu(geodetic2ecef(...)) for a neighbour of the origin (m)", float(np.abs(out.value[0] - out.value[1]).max()), 1e-7, {"point": [la1, lo1, h1]}, route=r)
+    # a whole track handed over as arrays (the functions that accept them): column k = the scalar call on point k, and the caller's arrays come back untouched
+    K = 5
+    O_ = np.asarray(f.geodetic2ecef(lat0, lon0, h0), float)
+    Pk = np.array([P + (k + 1) * 0.37 * dP for k in range(K)])
+    Ek = np.array([enu * (1.0 + 0.21 * k) for k in range(K)])
+    az_, el_, rg_ = np.linspace(3.0, 350.0, K), np.linspace(-80.0, 85.0, K), np.linspace(0.0, ne, K)
+    for r, fn, cols in (("ecef<->enu", lambda x, y, z: f.ecef2enu(x, y, z, lat0, lon0, h0), Pk.T), ("ecef<->enu", lambda x, y, z: f.ecef2enuv(x, y, z, O_[0], O_[1], O_[2], lat0, lon0), Pk.T),
+                        ("ecef<->enu", lambda x, y, z: f.enu2uvw(x, y, z, lat0, lon0), Ek.T), ("enu<->aer", lambda x, y, z: f.aer2enu(x, y, z), np.array([az_, el_, rg_]))):
+        args = [np.array(c, float) for c in cols]
+        keep = [a_.copy() for a_ in args]
+        out = call(lambda: np.asarray(fn(*args), float))
+        if not ctx.returned(out, clause="no-exception[array arguments]", route=r):
+            continue
+        ctx.ok("array arguments come back as the caller handed them over", all(np.array_equal(a_, k_) for a_, k_ in zip(args, keep)), {"changed": [i for i, (a_, k_) in enumerate(zip(args, keep)) if not np.array_equal(a_, k_)]}, route=r)
+        ref_cols = call(lambda: np.array([np.asarray(fn(float(keep[0][k]), float(keep[1][k]), float(keep[2][k])), float) for k in range(K)]).T)
+        if ref_cols.ok and ctx.ok("array arguments give one column per point", out.value.shape == ref_cols.value.shape, {"shape": list(out.value.shape)}, route=r):
+            sc_ = max(1.0, float(np.abs(ref_cols.value).max()))
+            ctx.le("a track given as arrays = the scalar call point by point", float(np.abs(out.value - ref_cols.value).max()) / sc_, 1e-15, route=r)
     # exact zeros (values that are "false" in Python): the origin seen from itself, a target at zero range in any direction, zero height, zero angles
     r = "enu<->aer"
     for deg in (True, False):
